@@ -103,7 +103,7 @@ for _p in ("C05", "C07"):
 
 reg(Spec(
     "C03", "Props/C03.v", harness="tracker", overlay=TRACKER_OVERLAY, race=True,
-    args_quick=["-mode", "conc", "-n", "12"],
+    args_quick=["-mode", "conc", "-n", "14"],
     args_thorough=["-mode", "conc", "-n", "150"],
     args_search=["-mode", "conc", "-n", "40"],
     assumptions=TRACKER_ASSUME + [
